@@ -122,12 +122,14 @@ def concurrent_extras_case(args):
         sp.files[p] = p + "\n"
     s = sp.src("src", paths)
     sub = rng.choice(["logs", "logs/deep", "rep/a/b"])
-    sp.proc(t3.RawProc("w", "cat {i:a} > {o:o} && mkdir -p %s && echo extra of {i:a|basename} > %s/{i:a|basename}.log" % (sub, sub),
+    # every command waits (5 s bound) until all L have started, so that they finish -- and are finalized -- together
+    barrier = 'touch "$VERIF_RDV/w_{i:a|basename}" && for n in $(seq 1 1000); do [ $(ls "$VERIF_RDV" | wc -l) -ge %d ] && break; sleep 0.005; done' % L
+    sp.proc(t3.RawProc("w", barrier + " && cat {i:a} > {o:o} && mkdir -p %s && echo extra of {i:a|basename} > %s/{i:a|basename}.log" % (sub, sub),
                        ins=[("a", [(s, "out")])], outs=[("o", "{i:a}.w")]))
     sc = t3.Scratch()
     try:
         sc.plant(sp.files)
-        impl = t3.run_impl(sc, sp, timeout=60, yield_seed=(rng.randint(1, 10**6), rng.choice([2000, 20000, 40000])))
+        impl = t3.run_impl(sc, sp, timeout=60, yield_seed=(rng.randint(1, 10**6), rng.choice([20000, 40000])))
         problems = []
         if impl["rc"] != 0 or not impl["returned"]:
             problems.append("the workflow fails (exit %s): %s" % (impl["rc"], impl["stderr"][-200:]))
